@@ -84,7 +84,8 @@ example : Spec.Forest.pathUp 5 4 (0, 1) = [(0, 1), (1, 0), (2, 0)] := by decide
 /-! ### `ProofPositions` -/
 
 /-- **`ProofPositions` is the (row, offset) algorithm `refPP`** (`Proofs/ProofPosRef.lean`: per
-row a left-to-right scan using only `parent`, `sib`, `isRootPos`, then a sort) — for every
+row a left-to-right scan using only `parent`, `sib`, `isRootPos`, then a sort and the removal
+of adjacent duplicates) — for every
 list of targets that are nodes of the forest (sorted or not, nested or not), in a forest
 allocated for `H ≥ TreeRows numLeaves` rows, `H ≤ 63`. -/
 theorem proofPositions_refines {H h : Nat} (n : U64) (hT : Model.TreeRows n = H8 h)
@@ -113,6 +114,42 @@ theorem proofPositions_spec {Hh : Type} (F : Spec.Forest Hh) {H h : Nat} (n : U6
     omega
   rw [proofPositions_eq_refPP n hT hH hhH targets (by rw [hn]; exact hyp.inForest), hn,
     refPP_eq_spec F hyp hrows]
+
+/-- **`ProofPositions` is the specification's canonical answer for EVERY sorted list of forest
+nodes — no antichain hypothesis.**  For a forest `F` with `numLeaves` leaves, allocated for `H`
+rows (`TreeRows numLeaves ≤ H ≤ 63`), and targets that are nodes of the forest, strictly
+ascending (`PPHyp0`; a target may be an ancestor of other targets): `ProofPositions` returns
+LITERALLY the lists `Spec.Forest.proofPositions` (the siblings on the targets' paths that are
+neither targets nor computable — i.e. not themselves on a path —, by row then position, each
+once) and `Spec.Forest.computable` (the strict ancestors of the targets up to the roots, by row
+then position, each once; an explicit target that is an ancestor of another target is
+computable and is listed).  This is the repaired function (per-row `slices.Compact`); the
+function before the repair fails it (`proofPositions_nested_fails`). -/
+theorem proofPositions_spec_all {Hh : Type} (F : Spec.Forest Hh) {H h : Nat} (n : U64)
+    (hn : n.toNat = F.numLeaves) (hT : Model.TreeRows n = H8 h) (hH : H ≤ 63) (hhH : h ≤ H)
+    (targets : List Spec.Pos) (hyp : PPHyp0 F.numLeaves targets) :
+    Model.ProofPositions (targets.map (encP H)) n (H8 H) =
+      ((F.proofPositions targets).map (encP H), (F.computable targets).map (encP H)) := by
+  have hrows : F.rows ≤ H := by
+    have h1 := treeRows_spec n.isLt
+    rw [BitVec.ofNat_toNat, BitVec.setWidth_eq, hT, toNat_H8 (by omega), hn] at h1
+    unfold Spec.Forest.rows
+    omega
+  rw [proofPositions_eq_refPP n hT hH hhH targets (by rw [hn]; exact hyp.inForest), hn,
+    refPP_eq_spec_all F hyp hrows]
+
+/-- the hypotheses of `proofPositions_spec_all` in elementary terms: every target `(r, o)` is
+a node of the forest (`(o+1)·2^r ≤ numLeaves` restricted to a tree: it lies below a root) and
+the list is strictly ascending by (row, offset) — which is the order of the encoded positions -/
+theorem PPHyp0_iff {n : Nat} {targets : List Spec.Pos} :
+    PPHyp0 n targets ↔
+      (∀ t ∈ targets, ∃ R, BelowRoot n t.1 t.2 R) ∧
+      targets.Pairwise (fun a b => a.1 < b.1 ∨ (a.1 = b.1 ∧ a.2 < b.2)) := by
+  constructor
+  · rintro ⟨h1, h2⟩
+    exact ⟨h1, List.Pairwise.imp (fun h => PLt_iff.1 h) h2⟩
+  · rintro ⟨h1, h2⟩
+    exact ⟨h1, List.Pairwise.imp (fun h => PLt_iff.2 h) h2⟩
 
 /-- 5 leaves; targets: leaf 1 and leaf 4 (the lone root).  Proof positions 0 and 9;
 computable 8 and 12. -/
@@ -144,20 +181,111 @@ example : Model.ProofPositions ([(0, 1), (0, 4)].map (encP 3)) 5#64 (H8 3) =
 example : F5.proofPositions [(0, 1), (0, 4)] = [(0, 0), (1, 1)] ∧
     F5.computable [(0, 1), (0, 4)] = [(1, 0), (2, 0)] := by decide
 
-/-- **Nested targets: the property fails.**  4 leaves, targets 2, 3 and their parent 5
-(`(0,2), (0,3), (1,1)`): the canonical proof is position 4 = `(1,0)`, the sibling of target 5,
-but `ProofPositions` returns no proof position at all: the parent computed from the pair
-(2,3) duplicates target 5 and, 5 being a right sibling, `rightSib(5) == 5` pairs the
-duplicate with itself.  (Same result from the Go code.)  With targets 0, 1, 4 the sibling 5
-is reported twice and 6 is computed twice. -/
+/-- **Nested targets: the function BEFORE the repair fails the property** (recorded finding
+`C16.proofpositions.nested`; `Model.ProofPositionsOld` is the loop without the per-row
+`slices.Compact`).  4 leaves, targets 2, 3 and their parent 5 (`(0,2), (0,3), (1,1)`): the
+canonical proof is position 4 = `(1,0)`, the sibling of target 5, but the old `ProofPositions`
+returns no proof position at all: the parent computed from the pair (2,3) duplicates target 5
+and, 5 being a right sibling, `rightSib(5) == 5` pairs the duplicate with itself.  (Same result
+from the unrepaired Go code.)  With targets 0, 1, 4 the sibling 5 is reported twice and 6 is
+computed twice. -/
 def F4 : Spec.Forest Unit := ⟨[some (), some (), some (), some ()]⟩
 
 theorem proofPositions_nested_fails :
-    Model.ProofPositions ([(0, 2), (0, 3), (1, 1)].map (encP 2)) 4#64 2#8 = ([], [5#64, 6#64]) ∧
+    Model.ProofPositionsOld ([(0, 2), (0, 3), (1, 1)].map (encP 2)) 4#64 2#8 = ([], [5#64, 6#64]) ∧
     (F4.proofPositions [(0, 2), (0, 3), (1, 1)]).map (encP 2) = [4#64] ∧
-    Model.ProofPositions ([(0, 0), (0, 1), (1, 0)].map (encP 2)) 4#64 2#8 =
+    Model.ProofPositionsOld ([(0, 0), (0, 1), (1, 0)].map (encP 2)) 4#64 2#8 =
       ([5#64, 5#64], [4#64, 6#64, 6#64]) ∧
     (F4.proofPositions [(0, 0), (0, 1), (1, 0)]).map (encP 2) = [5#64] := by
   decide +kernel
+
+/-- the two witnesses of the finding, on the repaired function: canonical -/
+theorem proofPositions_nested_repaired :
+    Model.ProofPositions [2#64, 3#64, 5#64] 4#64 2#8 = ([4#64], [5#64, 6#64]) ∧
+    Model.ProofPositions [0#64, 1#64, 4#64] 4#64 2#8 = ([5#64], [4#64, 6#64]) := by
+  decide +kernel
+
+/-- non-vacuity of `proofPositions_spec_all` on nested targets: 4 leaves, targets 2, 3 and
+their parent 5 -/
+theorem F4_hyp0 : PPHyp0 F4.numLeaves [(0, 2), (0, 3), (1, 1)] where
+  inForest := by
+    intro t ht
+    simp only [List.mem_cons, List.not_mem_nil, or_false] at ht
+    rcases ht with rfl | rfl | rfl <;> exact ⟨2, by decide, by decide, by decide⟩
+  sorted := by decide
+
+example : Model.ProofPositions ([(0, 2), (0, 3), (1, 1)].map (encP 2)) 4#64 (H8 2) =
+    ((F4.proofPositions [(0, 2), (0, 3), (1, 1)]).map (encP 2),
+      (F4.computable [(0, 2), (0, 3), (1, 1)]).map (encP 2)) :=
+  proofPositions_spec_all F4 (h := 2) 4#64 (by decide) (by decide) (by decide) (by decide) _ F4_hyp0
+example : F4.proofPositions [(0, 2), (0, 3), (1, 1)] = [(1, 0)] ∧
+    F4.computable [(0, 2), (0, 3), (1, 1)] = [(1, 1), (2, 0)] := by decide
+/-- the target (1,1) IS an ancestor of the targets (0,2), (0,3): the antichain hypothesis of
+`proofPositions_spec` fails here -/
+example : Anc (1, 1) (0, 2) ∧ ((1, 1) : Spec.Pos) ≠ (0, 2) := ⟨⟨by decide, by decide⟩, by decide⟩
+
+/-! ### the same on `uint64` lists -/
+
+/-- every `uint64` that `inForest` accepts (forest of `n ≤ 2^H` leaves allocated for `H` rows)
+is the encoding of a node of the forest -/
+theorem decode_inForest {H : Nat} (hH : H ≤ 63) (n : U64) (hn : n.toNat ≤ 2 ^ H) (t : U64)
+    (hin : Model.inForest t n (H8 H) = true) :
+    ∃ p : Spec.Pos, t = encP H p ∧ ValidH H p ∧ ∃ R, BelowRoot n.toNat p.1 p.2 R := by
+  have hlt : t.toNat < 2 ^ (H + 1) - 1 := by
+    apply Classical.byContradiction
+    intro hc
+    rw [inForest_out_of_range hH t n (by omega), decide_eq_true_iff, BitVec.lt_def] at hin
+    have : 2 ^ (H + 1) = 2 * 2 ^ H := by rw [Nat.pow_succ]; omega
+    have := Nat.two_pow_pos H
+    omega
+  obtain ⟨r, o, hr, ho, rfl⟩ := position_exists (h := H) t hlt
+  obtain ⟨R, hR⟩ := (inForest_iff_below_root hH hr ho n).1 hin
+  exact ⟨(r, o), rfl, ⟨hr, ho⟩, R, hR⟩
+
+theorem decode_targets {H : Nat} (hH : H ≤ 63) (n : U64) (hn : n.toNat ≤ 2 ^ H) :
+    ∀ ts : List U64, (∀ t ∈ ts, Model.inForest t n (H8 H) = true) →
+      ∃ targets : List Spec.Pos, ts = targets.map (encP H) ∧
+        ∀ p ∈ targets, ValidH H p ∧ ∃ R, BelowRoot n.toNat p.1 p.2 R
+  | [], _ => ⟨[], rfl, by simp⟩
+  | t :: ts, h => by
+    obtain ⟨p, rfl, hv, hb⟩ := decode_inForest hH n hn t (h t (by simp))
+    obtain ⟨tg, rfl, htg⟩ := decode_targets hH n hn ts (fun t' ht' => h t' (List.mem_cons_of_mem _ ht'))
+    refine ⟨p :: tg, rfl, ?_⟩
+    intro q hq
+    rcases List.mem_cons.1 hq with rfl | hq
+    · exact ⟨hv, hb⟩
+    · exact htg q hq
+
+/-- **`ProofPositions` on `uint64` lists**: for EVERY strictly ascending list `ts` of positions
+that `inForest` accepts — nested or not — the result is literally the specification's canonical
+pair of lists for the decoded targets. -/
+theorem proofPositions_spec_all_u64 {Hh : Type} (F : Spec.Forest Hh) {H h : Nat} (n : U64)
+    (hn : n.toNat = F.numLeaves) (hT : Model.TreeRows n = H8 h) (hH : H ≤ 63) (hhH : h ≤ H)
+    (ts : List U64) (hasc : ts.Pairwise (· < ·))
+    (hin : ∀ t ∈ ts, Model.inForest t n (H8 H) = true) :
+    ∃ targets : List Spec.Pos, ts = targets.map (encP H) ∧ PPHyp0 F.numLeaves targets ∧
+      Model.ProofPositions ts n (H8 H) =
+        ((F.proofPositions targets).map (encP H), (F.computable targets).map (encP H)) := by
+  have hnle : n.toNat ≤ 2 ^ H :=
+    Nat.le_trans (le_of_treeRows n hT (by omega)) (two_pow_le_of_le hhH)
+  obtain ⟨targets, rfl, htg⟩ := decode_targets hH n hnle ts hin
+  have hyp : PPHyp0 F.numLeaves targets := by
+    refine ⟨fun t ht => by rw [← hn]; exact (htg t ht).2, ?_⟩
+    rw [List.pairwise_map] at hasc
+    exact List.Pairwise.imp_of_mem
+      (fun {a b} ha hb hab => (encP_lt_iff hH (htg a ha).1 (htg b hb).1).1 hab) hasc
+  exact ⟨targets, rfl, hyp, proofPositions_spec_all F n hn hT hH hhH targets hyp⟩
+
+example : ∃ targets : List Spec.Pos, [2#64, 3#64, 5#64] = targets.map (encP 2) ∧
+    PPHyp0 F4.numLeaves targets ∧
+    Model.ProofPositions [2#64, 3#64, 5#64] 4#64 (H8 2) =
+      ((F4.proofPositions targets).map (encP 2), (F4.computable targets).map (encP 2)) :=
+  proofPositions_spec_all_u64 F4 (h := 2) 4#64 (by decide) (by decide) (by decide) (by decide) _
+    (by simp only [List.pairwise_cons, List.mem_cons, List.not_mem_nil, or_false, forall_eq_or_imp,
+          forall_eq, List.Pairwise.nil, and_true, false_imp_iff, implies_true]; decide)
+    (by
+      intro t ht
+      simp only [List.mem_cons, List.not_mem_nil, or_false] at ht
+      rcases ht with rfl | rfl | rfl <;> decide +kernel)
 
 end UtreexoVerif.Props.C16
